@@ -308,11 +308,180 @@ PROPERTIES = {
     'C19': dict(
         level='other',
         explanation=(
-            'Bounded stand-in (labelled bounded, nothing counted as proved yet): MATCH (exact incl. case-insensitive text and wildcards, '
-            'ascending, descending), INDEX, LOOKUP / VLOOKUP / HLOOKUP against INDEX(MATCH), COUNTIF / SUMIF / AVERAGEIF against '
-            'filter-then-aggregate spec functions, on random key vectors and tables up to 6x6 through the real FUNCTIONS entries.'),
-        assumptions=[],
-        not_proved=['everything: the scans run on numpy masks / regex and are reached only by the bounded stage in this version'],
+            'Proved on the real bodies, for all key and lookup values but key vectors of bounded length (1..6 keys; complete by unwinding for '
+            'that bound): the scan of MATCH (xmatch) in its three modes over numeric keys, over keys mixed with text of the other type, and '
+            'over text keys without wildcards (strictly sorted keys for the approximate modes) returns the position Excel defines; the '
+            'LOOKUP/VLOOKUP/HLOOKUP kernel (xlookup) returns the result element at that position; INDEX\'s element selection (_index) returns '
+            'the element, #REF! outside, #VALUE! for negative positions.  numpy is the container (run natively: masks, shapes, indexing with '
+            'decided indices); the elements are symbolic.  Bounded stand-in: everything else - argument parsing (upper-casing, table slicing), '
+            'wildcards, criteria functions - through the real FUNCTIONS entries against spec functions on random key vectors and tables up to 6x6.'),
+        assumptions=['numpy object arrays are containers: element-wise comparison applies the Python comparison to each element; indexing, '
+                     'masks, ravel, arange behave as in the installed numpy (they are executed, not modelled)',
+                     'floats as reals in the comparisons of keys (no arithmetic is involved)'],
+        not_proved=['key vectors longer than 6; wildcard matching (regex); args_parser_match_array / args_parser_hlookup (numpy char ops, '
+                    'np.matrix); _xfilter criteria (regex + np.vectorize): bounded stage only'],
         bounded_rule='random cases per family (1500 quick / 30000 thorough); distinct = distinct (function, arguments) cases',
     ),
 }
+
+
+# ====================================================================================
+# proved part: the scans of MATCH on numeric keys and INDEX's element selection, on the real bodies.
+# numpy stays the container (run natively: shapes, masks, indexing with decided indices); the elements are symbolic.
+from pyvc.contract import Contract, RealT, IntT, ConstT, OneOf, NpArrT, OpaqueT, ErrT
+from pyvc.spec import same_object
+from formulas.tokens.operand import NA as _NA, REF as _REF, VALUE as _VALUE
+import numpy as _np
+
+MAXLEN = 6
+
+
+def _match_contract(n, mt, kind='num'):
+    """kind 'num': numeric value over numeric keys; 'mixed': numeric value, every second key is text (skipped: other type);
+    'text': text value without wildcard characters over text keys (both already upper-cased by the argument parser)."""
+    from pyvc.contract import StrT
+    tid = 1 if kind == 'text' else 0
+    if kind == 'mixed':
+        types = _np.asarray([k % 2 for k in range(n)], int)
+    else:
+        types = _np.full(n, tid, int)
+    elem = StrT() if kind == 'text' else RealT()
+
+    class _Keys(NpArrT):
+        def make(self, ctx, name):
+            out = _np.empty(n, object)
+            for k in range(n):
+                out[k] = (StrT() if types[k] == 1 else RealT()).make(ctx, '%s.%d' % (name, k))
+            return out
+    c = Contract('formulas.functions.look:xmatch',
+                 dict(lookup_value_type=ConstT(tid), lookup_value=elem, lookup_array_index=ConstT(_np.arange(1, n + 1)),
+                      lookup_array_type=ConstT(types), lookup_array=_Keys(n, elem), match_type=ConstT(mt)),
+                 'C19', name='xmatch[%d %s keys; match_type %d]' % (n, {'num': 'numeric', 'mixed': 'mixed', 'text': 'text'}[kind], mt),
+                 use=[], float_mode='real')
+    CONTRACTS.append(c)
+    own = [k for k in range(n) if types[k] == tid]           # keys of the value's own type, in order
+
+    def plain(v):
+        return not isinstance(v, str) or not ('*' in v or '?' in v or '~' in v)
+
+    if mt > 0:
+        @c.requires
+        def _(lookup_value, lookup_array):
+            return plain(lookup_value) and all(lookup_array[own[i]] < lookup_array[own[i + 1]] for i in range(len(own) - 1))
+
+        @c.ensures('position-of-the-last-key-not-greater-than-the-value', 'P')
+        def _(lookup_value, lookup_array, result):
+            hits = [k + 1 for k in own if lookup_array[k] <= lookup_value]
+            return (result is _NA) if not hits else result == hits[-1]
+    elif mt < 0:
+        @c.requires
+        def _(lookup_value, lookup_array):
+            return plain(lookup_value) and all(lookup_array[own[i]] > lookup_array[own[i + 1]] for i in range(len(own) - 1))
+
+        @c.ensures('position-of-the-last-key-not-smaller-than-the-value', 'P')
+        def _(lookup_value, lookup_array, result):
+            hits = [k + 1 for k in own if lookup_array[k] >= lookup_value]
+            return (result is _NA) if not hits else result == hits[-1]
+    else:
+        @c.requires
+        def _(lookup_value):
+            return plain(lookup_value)
+
+        @c.ensures('position-of-the-first-equal-key', 'P')
+        def _(lookup_value, lookup_array, result):
+            hits = [k + 1 for k in own if lookup_array[k] == lookup_value]
+            return (result is _NA) if not hits else result == hits[0]
+
+    @c.canary('canary:always-found')
+    def _(result):
+        return result is not _NA
+    return c
+
+
+for _n in range(1, MAXLEN + 1):
+    for _mt in (1, -1, 0):
+        _match_contract(_n, _mt)
+for _n in (3, 4, 5):
+    for _mt in (1, -1, 0):
+        _match_contract(_n, _mt, 'mixed')
+for _n in (1, 2, 3):
+    for _mt in (1, -1, 0):
+        _match_contract(_n, _mt, 'text')
+
+
+def _index_contract(nr, nc):
+    c = Contract('formulas.functions.look:_index',
+                 dict(arrays=ConstT(None), row_num=OneOf(IntT(-2, nr + 2), ErrT()), col_num=OneOf(IntT(-2, nc + 2), ErrT()),
+                      area_num=ConstT(1), is_reference=ConstT(False), is_array=ConstT(False)),
+                 'C19', name='_index[%dx%d table]' % (nr, nc), use=[])
+    c.params['arrays'] = _TablesT(nr, nc)
+    CONTRACTS.append(c)
+
+    @c.ensures('element-at-row-and-column-REF-outside-VALUE-for-negative', 'P')
+    def _(arrays, row_num, col_num, result):
+        from formulas.tokens.operand import XlError
+        if isinstance(row_num, XlError):
+            return result is row_num
+        if isinstance(col_num, XlError):
+            return result is col_num
+        t = arrays[0]
+        if row_num < 0 or col_num < 0:
+            return result is _VALUE
+        if row_num > t.shape[0] or col_num > t.shape[1]:
+            return result is _REF
+        # 0 selects "the whole row / column", which for this scalar kernel is its first element
+        r, k = (row_num - 1 if row_num > 0 else 0), (col_num - 1 if col_num > 0 else 0)
+        return same_object(result, t[r, k])
+
+    @c.canary('canary:never-REF')
+    def _(result):
+        return result is not _REF
+    return c
+
+
+class _TablesT(NpArrT):
+    """[table]: a one-element list holding an nr x nc object array of opaque cell values."""
+
+    def __init__(self, nr, nc):
+        NpArrT.__init__(self, (nr, nc), OpaqueT())
+
+    def make(self, ctx, name):
+        return [NpArrT.make(self, ctx, name)]
+
+
+for _nr, _nc in ((1, 1), (2, 3), (3, 2)):
+    _index_contract(_nr, _nc)
+
+
+# LOOKUP / VLOOKUP / HLOOKUP kernel: what INDEX of MATCH returns (xmatch's body is inlined: one proof over both)
+def _lookup_contract(n, mt):
+    c = Contract('formulas.functions.look:xlookup',
+                 dict(lookup_value_type=ConstT(0), lookup_value=RealT(), lookup_array_index=ConstT(_np.arange(1, n + 1)),
+                      lookup_array_type=ConstT(_np.zeros(n, int)), lookup_array=NpArrT(n, RealT()), match_type=ConstT(mt),
+                      result_vec=NpArrT(n, OpaqueT())),
+                 'C19', name='xlookup[%d numeric keys; match_type %r]' % (n, mt), use=[], float_mode='real')
+    CONTRACTS.append(c)
+
+    @c.requires
+    def _(lookup_array):
+        return (not mt) or all(lookup_array[i] < lookup_array[i + 1] for i in range(len(lookup_array) - 1))
+
+    @c.ensures('returns-the-result-element-at-the-matched-position', 'P')
+    def _(lookup_value, lookup_array, result_vec, result):
+        if mt:
+            hits = [i for i in range(len(lookup_array)) if lookup_array[i] <= lookup_value]
+            pos = hits[-1] if hits else None
+        else:
+            hits = [i for i in range(len(lookup_array)) if lookup_array[i] == lookup_value]
+            pos = hits[0] if hits else None
+        return (result is _NA) if pos is None else same_object(result, result_vec[pos])
+
+    @c.canary('canary:always-the-first-result')
+    def _(result_vec, result):
+        return same_object(result, result_vec[0])
+    return c
+
+
+for _n in (1, 2, 3, 4):
+    for _mt in (True, False, 1):
+        _lookup_contract(_n, _mt)
